@@ -68,6 +68,11 @@ impl ITy {
     }
 }
 
+thread_local! {
+    /// maximal number of terms of a linear form (job option `lin.cap`; 6 unless the LIN tier is on)
+    pub static LIN_CAP: std::cell::Cell<usize> = std::cell::Cell::new(6);
+}
+
 /// Sparse linear form  sum(coef_i * atom_i) + d,  exact when m == 0, otherwise a congruence mod m.
 #[derive(Clone, Debug, PartialEq, Eq, Hash)]
 pub struct Lin {
@@ -82,6 +87,9 @@ impl Lin {
     }
     pub fn konst(c: i128) -> Lin {
         Lin { m: 0, d: c, terms: vec![] }
+    }
+    pub fn from_parts(m: i128, d: i128, terms: Vec<(AtomId, i128)>) -> Option<Lin> {
+        Lin { m, d, terms }.norm()
     }
     fn norm(mut self) -> Option<Lin> {
         if self.m < 0 {
@@ -108,7 +116,7 @@ impl Lin {
             self.d = self.d.rem_euclid(self.m);
         }
         out.retain(|t| t.1 != 0);
-        if out.len() > 6 {
+        if out.len() > LIN_CAP.with(|c| c.get()) {
             return None;
         }
         self.terms = out;
